@@ -23,7 +23,29 @@ def strategy(tier):
                    G.search_spec(max_geos=big, min_geos=3, constraint_p=0.5, elig_style='fixed-heavy', tight_sizes=True, allow_budget=False),
                    G.search_spec(max_geos=big, min_geos=3, constraint_p=0.5, elig_style='all-treatment', tight_sizes=True, allow_budget=False),
                    G.search_spec(max_geos=big, min_geos=3, constraint_p=0.55, elig_style='none'),
-                   G.search_spec(max_geos=big, min_geos=3, constraint_p=0.45, elig_style='mixed'))
+                   G.search_spec(max_geos=big, min_geos=3, constraint_p=0.45, elig_style='mixed'),
+                   _share_squeeze(big))
+
+
+@st.composite
+def _share_squeeze(draw, big):
+  """Flavour for the treatment-share clause: one large geo that may not be assigned at all, one large assignable geo that
+  is too large for the range, and a range placed between the shares a small group has against all geos / assignable
+  geos / admitted geos."""
+  spec = draw(G.search_spec(max_geos=big, min_geos=5, constraint_p=0.1, allow_budget=False, allow_share=False, elig_style='free'))
+  panel, params = spec['panel'], spec['params']
+  n = len(panel['ids'])
+  panel['level'] = [32, 32] + [draw(st.sampled_from([2, 4, 4, 8])) for _ in range(n - 2)]
+  panel['early'] = [1] * n
+  panel['flat'] = []
+  rows = [[panel['ids'][0], 0, 0, 1]] + [[g, 1, 1, 1] for g in panel['ids'][1:]]
+  spec['elig'] = dict(spec['elig'] or {'as_index': False, 'col_order': None, 'row_labels': None}, rows=rows, style='share-squeeze')
+  params['share_squeeze'] = True
+  params['share_q'] = None
+  params['n_geos_max'] = None
+  params['treatment_geos_range'] = draw(st.sampled_from([[2, 3], [2, 2], [1, 3], None]))
+  spec['history'] = None
+  return spec
 
 
 def check_design(sp, T, C, gwc=None):
